@@ -203,7 +203,7 @@ def check_constructors(rep, prog, m):
                     pos = [i for i, c in enumerate(comps) if isinstance(c, ast.Slice)]
                     idx[n.targets[0].id] = (g, pos, len(comps))
         okidx = len(idx) == D and all(g in grids and pos == [grids.index(g)] and ln == D for g, pos, ln in idx.values())
-        rep.ob('R-IDX', '%s index arrays' % q, okidx, str(idx), rel, fn.lineno, what='one arange per old axis placed on that axis')
+        rep.ob('R-IDX', '%s index arrays' % q, okidx, str(idx) if idx else 'index arrays idx_* not found', rel, fn.lineno, what='one arange per old axis placed on that axis')
         order = [k for k, v in sorted(idx.items(), key=lambda kv: kv[1][1])]
         new = [n for n in own_nodes(fn) if isinstance(n, ast.Assign) and isinstance(n.value, ast.Call) and _last(dotted(n.value.func)) == 'zeros' and isinstance(n.targets[0], ast.Name)]
         okz = len(new) == 1 and ast.unparse(new[0].value.args[0]).replace('(', '').replace(')', '').replace('len', '').replace(' ', '') == ','.join(grids)
@@ -219,7 +219,7 @@ def check_constructors(rep, prog, m):
             i1 = [ast.unparse(e) for e in t1.slice.elts]
             okd = i0 == order + ['lower_z_index'] and i1 == order + ['upper_z_index'] and ast.unparse(dep[0].value) == 'frac_lower * norm' and ast.unparse(dep[1].value) == 'frac_upper * norm' \
                 and isinstance(dep[0], ast.Assign) and (isinstance(dep[1], ast.AugAssign) and isinstance(dep[1].op, ast.Add) or isinstance(dep[1], ast.Assign))
-        rep.ob('R-TPL', '%s deposit' % q, okd, '; '.join(ast.unparse(d) for d in dep), rel, dep[0].lineno if dep else fn.lineno, what='frac_lower*norm at (old indices, lower) and frac_upper*norm at (old indices, upper)')
+        rep.ob('R-TPL', '%s deposit' % q, okd, '; '.join(ast.unparse(d) for d in dep) or 'deposit statements not found', rel, dep[0].lineno if dep else fn.lineno, what='frac_lower*norm at (old indices, lower) and frac_upper*norm at (old indices, upper)')
         ret = [n for n in own_nodes(fn) if isinstance(n, ast.Return)]
         rep.ob('R-FLOW', '%s return' % q, len(ret) == 1 and ast.unparse(ret[0].value) == out, 'returns %s' % (ast.unparse(ret[0].value) if ret else ''), rel, fn.lineno, what='returns the new density')
     for q, f in (('phi_2D_to_3D_split_1', '1'), ('phi_2D_to_3D_split_2', '0')):
@@ -334,6 +334,17 @@ def check_pulses(rep, prog, m):
             t = idx_text(sub)
             return t == canon or (K == D and t == canon_short)
         scratch = [n for n in inner if isinstance(n, ast.Assign) and isinstance(n.value, ast.Call) and _last(dotted(n.value.func)) == 'zeros']
+        if not scratch:
+            # allocated once before the loops and cleared at the top of every iteration: the same fresh zero matrix per iteration
+            fills = [n for n in inner[:1] if isinstance(n, ast.Expr) and isinstance(n.value, ast.Call) and isinstance(n.value.func, ast.Attribute) and n.value.func.attr == 'fill'
+                     and len(n.value.args) == 1 and ast.unparse(n.value.args[0]) in ('0', '0.0') and isinstance(n.value.func.value, ast.Name)]
+            if fills:
+                nm_ = fills[0].value.func.value.id
+                scratch = [n for n in fn.body if isinstance(n, ast.Assign) and ast.unparse(n.targets[0]) == nm_ and isinstance(n.value, ast.Call) and _last(dotted(n.value.func)) in ('zeros', 'empty')
+                           and isinstance(n.value.args[0], (ast.Tuple, ast.List))]
+                if scratch:
+                    sc0 = scratch[0]
+                    scratch = [ast.copy_location(ast.Assign(targets=sc0.targets, value=ast.Call(func=sc0.value.func, args=[ast.Tuple(elts=[inline(x, sing) for x in sc0.value.args[0].elts], ctx=ast.Load())], keywords=[])), sc0)]
         ext_ok = False
         if scratch:
             # each extent: phi.shape[K], len(grid_K), or the length of an index vector numpy.arange(<extent of K>)
@@ -344,7 +355,7 @@ def check_pulses(rep, prog, m):
             shp_node = scratch[0].value.args[0]
             ext_ok = isinstance(shp_node, (ast.Tuple, ast.List)) and len(shp_node.elts) == 2 and all(ast.unparse(x) in extent_texts for x in shp_node.elts)
         S = scratch[0].targets[0].id if scratch else '?'
-        rep.ob('R-TPL(pulse)', tag + ' scratch', ext_ok, ast.unparse(scratch[0]) if scratch else 'no scratch matrix', rel, scratch[0].lineno if scratch else fn.lineno, what='scratch matrix is extent(K) x extent(K)')
+        rep.ob('R-TPL(pulse)', tag + ' scratch', ext_ok, ast.unparse(scratch[0]) if scratch else 'scratch matrix not found', rel, scratch[0].lineno if scratch else fn.lineno, what='scratch matrix is extent(K) x extent(K)')
         rowv = None
         for k_, v in sing.items():
             if isinstance(v, ast.Call) and _last(dotted(v.func)) == 'arange':
@@ -364,11 +375,17 @@ def check_pulses(rep, prog, m):
                     isinstance(d_.value, ast.Subscript) and ast.unparse(d_.value.value) == ct and idx_ok(d_.value)
                 if isinstance(d_, ast.AugAssign):
                     okd = okd and isinstance(d_.op, ast.Add)
-        rep.ob('R-TPL(pulse)', tag + ' deposit', okd, det + '; expected index %s on all four arrays' % canon, rel, deps[0].lineno if deps else fn.lineno,
+        rep.ob('R-TPL(pulse)', tag + ' deposit', okd, (det or 'deposit statements not found') + '; expected index %s on all four arrays' % canon, rel, deps[0].lineno if deps else fn.lineno,
                what='deposits use the same index (":" at position K, loop variables elsewhere in order) for bracket indices and contributions')
         col = [n for n in inner if isinstance(n, ast.Assign) and isinstance(n.targets[0], ast.Subscript) and ast.unparse(n.targets[0].value) == 'phi']
         okc = len(col) == 1 and idx_ok(col[0].targets[0]) and isinstance(col[0].value, ast.Call) and dotted(col[0].value.func) == 'Numerics.trapz' and \
-            ast.unparse(col[0].value.args[0]) == S and ast.unparse(col[0].value.args[1]) in grids and {k.arg: ast.unparse(k.value) for k in col[0].value.keywords} == {'axis': '0'}
+            ast.unparse(col[0].value.args[0]) == S and len(col[0].value.args) == 2 and ast.unparse(col[0].value.args[1]) in grids and {k.arg: ast.unparse(k.value) for k in col[0].value.keywords} == {'axis': '0'}
+        if not okc and len(col) == 1 and idx_ok(col[0].targets[0]) and isinstance(col[0].value, ast.Call) and dotted(col[0].value.func) == 'Numerics.trapz' and len(col[0].value.args) == 1 \
+                and ast.unparse(col[0].value.args[0]) == S:
+            # the spacing handed over as dx = numpy.diff(grid) (trapz computes exactly that from the grid)
+            kw_ = {k.arg: k.value for k in col[0].value.keywords}
+            dxv = inline(kw_['dx'], sing) if 'dx' in kw_ else None
+            okc = set(kw_) == {'dx', 'axis'} and ast.unparse(kw_['axis']) == '0' and isinstance(dxv, ast.Call) and dotted(dxv.func) in ('numpy.diff', 'np.diff') and len(dxv.args) == 1 and ast.unparse(dxv.args[0]) in grids
         rep.ob('R-TPL(pulse)', tag + ' collapse', okc, ast.unparse(col[0]) if col else 'no collapse', rel, col[0].lineno if col else fn.lineno,
                what='old destination axis integrated out with trapz(axis=0) into the same index')
         ret = [n for n in fn.body if isinstance(n, ast.Return)]
